@@ -436,7 +436,7 @@ func runC15(r *core.Run) {
 				continue
 			}
 			for i := range d1 {
-				d1[i] ^= 0xA5 // the caller reuses the Date it was handed
+				d1[i] = 0xA5 // the caller reuses the Date it was handed
 			}
 			for name, f := range convs {
 				r.Evaluations.Add(1)
